@@ -62,6 +62,7 @@ pub fn run(case: &Value) -> Value {
             }
         }
         "chardata" => chardata(case),
+        "create" => create(case),
         _ => json!({"error": format!("unknown op {}", op)}),
     }
 }
@@ -104,6 +105,15 @@ fn chardata(case: &Value) -> Value {
                 _ => json!({"error": "unknown method"}),
             };
             out["data"] = json!(node.data().unwrap_or_default());
+            let printed = format!("{}", doc);
+            out["printed"] = json!(printed);
+            out["reparse"] = match xml_dom::XmlDocument::from_raw(printed.as_str()) {
+                Ok((rest, d2)) => {
+                    let kids: Vec<String> = d2.document_element().map(|r| r.child_nodes().iter().map(|c| c.node_value().ok().flatten().unwrap_or_default()).collect()).unwrap_or_default();
+                    json!({"ok": rest.is_empty(), "rest": rest, "children": kids, "printed": format!("{}", d2)})
+                }
+                Err(e) => json!({"ok": false, "err": format!("{:?}", e).chars().take(120).collect::<String>()}),
+            };
             out["children"] = json!(root.child_nodes().iter().map(|c| c.node_value().ok().flatten().unwrap_or_default()).collect::<Vec<String>>());
             out
         }};
@@ -119,4 +129,72 @@ fn chardata(case: &Value) -> Value {
         }),
         _ => run!(doc.create_comment(content), |_n: &xml_dom::XmlComment| json!({"error": "comments have no split_text"})),
     }
+}
+
+
+/// DOM factories: create_element / create_attribute / create_processing_instruction / create_text_node / ...
+fn create(case: &Value) -> Value {
+    use xml_dom::{AsNode, Attr, CharacterData, Document, DocumentMut, Element, ElementMut, Node, NodeMut, ProcessingInstruction};
+    let what = case["what"].as_str().unwrap_or("");
+    let name = case["name"].as_str().unwrap_or("");
+    let data = case["data"].as_str().unwrap_or("");
+    let (_, doc) = xml_dom::XmlDocument::from_raw("<r/>").unwrap();
+    let root = doc.document_element().unwrap();
+    let mut out = match what {
+        "element" => match doc.create_element(name) {
+            Ok(e) => {
+                let stored = e.tag_name();
+                root.append_child(e.as_node()).unwrap();
+                json!({"ok": true, "stored": stored})
+            }
+            Err(e) => json!({"ok": false, "err": format!("{:?}", e)}),
+        },
+        "attribute" => match doc.create_attribute(name) {
+            Ok(a) => {
+                let stored = a.name();
+                let r = root.set_attribute_node(a);
+                json!({"ok": true, "stored": stored, "attached": r.is_ok()})
+            }
+            Err(e) => json!({"ok": false, "err": format!("{:?}", e)}),
+        },
+        "pi" => match doc.create_processing_instruction(name, data) {
+            Ok(p) => {
+                let stored = p.target();
+                let d = p.data();
+                root.append_child(p.as_node()).unwrap();
+                json!({"ok": true, "stored": stored, "data": d})
+            }
+            Err(e) => json!({"ok": false, "err": format!("{:?}", e)}),
+        },
+        "text" => {
+            let t = doc.create_text_node(data);
+            root.append_child(t.as_node()).unwrap();
+            json!({"ok": true, "data": t.data().unwrap_or_default()})
+        }
+        "comment" => {
+            let t = doc.create_comment(data);
+            root.append_child(t.as_node()).unwrap();
+            json!({"ok": true, "data": t.data().unwrap_or_default()})
+        }
+        "cdata" => {
+            let t = doc.create_cdata_section(data);
+            root.append_child(t.as_node()).unwrap();
+            json!({"ok": true, "data": t.data().unwrap_or_default()})
+        }
+        "two_texts" => {
+            let a = doc.create_text_node(name);
+            let b = doc.create_text_node(data);
+            root.append_child(a.as_node()).unwrap();
+            root.append_child(b.as_node()).unwrap();
+            json!({"ok": true})
+        }
+        _ => json!({"error": "unknown factory"}),
+    };
+    let printed = format!("{}", doc);
+    out["printed"] = json!(printed);
+    out["reparse"] = match xml_dom::XmlDocument::from_raw(printed.as_str()) {
+        Ok((rest, d2)) => json!({"ok": rest.is_empty(), "rest": rest, "printed": format!("{}", d2)}),
+        Err(e) => json!({"ok": false, "err": format!("{:?}", e).chars().take(120).collect::<String>()}),
+    };
+    out
 }
